@@ -197,14 +197,16 @@ def pick_ks(rng, n, D, full):
         return []
     if full or n <= 12:
         return list(range(1, n))
-    ks = {1, n - 1, rng.randint(1, n - 1), rng.randint(1, min(n - 1, 8))}
+    # the boundaries k = N-1 (every other sample) and k = N-2 (all but one: the k+1 the tree wrappers ask for is
+    # the whole tree) are in every k-set of every generator
+    ks = {1, n - 1, max(1, n - 2), rng.randint(1, n - 1), rng.randint(1, min(n - 1, 8))}
     # aim at a tie: k = number of samples at distance <= some value from a random query (+-1)
     q = rng.randrange(n)
     row = sorted(D[q][j] for j in range(n) if j != q)
     t = rng.randrange(len(row))
     c = sum(1 for x in row if x <= row[t])
     for kk in (c - 1, c, c + 1):
-        if 1 <= kk <= n - 1 and len(ks) < 6:
+        if 1 <= kk <= n - 1 and len(ks) < 7:
             ks.add(kk)
     return sorted(ks)
 
@@ -226,7 +228,9 @@ def make_case(rng, gen, kind, n, payload, D, label, full_ks=False, structural=Tr
 
 def gen_case(rng, nmax, which=None):
     g = which or rng.choice(["grid", "grid", "grid_dup", "line", "line", "graph", "ultra", "coincident", "wide",
-                             "wide_dup", "kernel", "kernel1", "generic", "clustered"])
+                             "wide_dup", "kernel", "kernel1", "generic", "clustered", "kernel_scaled"])
+    if g == "kernel_scaled":
+        return gen_kernel_scaled(rng, nmax)
     if g == "generic":
         # tie-free data in 1..50 dimensions: random integer coordinates, L1 (exact)
         n = rng.randint(2, nmax)
@@ -285,9 +289,41 @@ def model_table(c):
     X = c["X"]
     D2 = [[sum((a - b) ** 2 for a, b in zip(p, q)) for q in X] for p in X]
     R = [[isqrt_exact(v) for v in row] for row in D2]
-    if all(v is not None for row in R for v in row):
-        return R, True
+    s = c.get("kscale", 0)
+    if all(v is not None for row in R for v in row) and s % 2 == 0:
+        # kernel scaled by 2^s: the induced distances are 2^(s/2) * R exactly (sqrt of an exact square)
+        if s > 0:
+            return [[v << (s // 2) for v in row] for row in R], True
+        return R, True          # s < 0: the dumps are divided by dscale = 2^(s/2) before they meet the model
     return D2, False
+
+
+def dscale(c):
+    s = c.get("kscale", 0)
+    return 2.0 ** (s // 2) if (c["kind"] == "K" and s < 0 and s % 2 == 0) else 1.0
+
+
+def gen_kernel_scaled(rng, nmax):
+    """PSD integer kernel tables G = X X^T at tiny and huge scales: the callback serves G * 2^s, s in [-60, 60]
+    (every entry exact in binary64).  KernelDistance::distance = sqrt(k(l,l) - 2k(l,r) + k(r,r)) and the VP-tree's
+    kernel comparator -2k(p,a)+k(a,a) are scale-equivariant, so rows must be the same k nearest sets as at s = 0."""
+    n = rng.randint(2, min(nmax, 30))
+    dim = rng.choice([1, 1, 1, 2, 3])
+    r = rng.choice([2, 4, 9, 30])
+    X = [[rng.randint(-r, r) for _ in range(dim)] for _ in range(n)]
+    if rng.random() < 0.4:
+        X = add_copies(rng, X, min(nmax, 34))
+        n = len(X)
+    if dim == 1:
+        s = 2 * rng.choice([-30, -30, -25, -11, -1, 1, 9, 26, 30, 30])
+    else:
+        s = rng.choice([-60, -59, -33, -2, -1, 1, 2, 31, 59, 60])
+    G = [[sum(a * b for a, b in zip(p, q)) for q in X] for p in X]
+    D2 = [[sum((a - b) ** 2 for a, b in zip(p, q)) for q in X] for p in X]
+    c = make_case(rng, "kernel_scaled", "K", n, X, D2, "kernel%dd*2^%s" % (dim, "tiny" if s < 0 else "huge"))
+    c["kscale"] = s
+    c["Ghex"] = [[(float(v) * 2.0 ** s).hex() for v in row] for row in G]
+    return c
 
 
 def is_metric(D):
@@ -314,10 +350,29 @@ def case_text(c, cmds):
     n = c["N"]
     if c["kind"] == "D":
         t = ["CASE %d D" % n] + [" ".join(str(v) for v in row) for row in (c.get("Mhex") or c["M"])]
+    elif c.get("Ghex"):
+        t = ["CASE %d KM" % n] + [" ".join(row) for row in c["Ghex"]]
     else:
         dim = len(c["X"][0]) if c["X"] else 0
         t = ["CASE %d K %d" % (n, dim)] + [" ".join(str(v) for v in row) for row in c["X"]]
+    if c.get("ids"):
+        i = c["ids"]
+        t.append("IDS %d %d %s" % (i["pf"], i["pb"], " ".join(str(v) for v in i["ids"])))
     return "\n".join(t + cmds + ["END"]) + "\n"
+
+
+def add_ids(rng, c):
+    """non-identity index range: the iterators run over a window [pf, pf+N) of a longer vector whose entries are
+    distinct arbitrary ids (offset and permuted); the matrix stays positional, so nothing else changes: neighbour
+    indices returned by the library must be POSITIONS in [begin,end), never ids"""
+    n = c["N"]
+    base = rng.choice([0, 1, 5, 1000, -50, 10 ** 6, -(10 ** 6)])
+    span = n + rng.choice([0, 0, 3, n, 8 * n])
+    ids = rng.sample(range(base, base + span), n)
+    if rng.random() < 0.3:
+        ids.sort(reverse=rng.random() < 0.5)
+    c["ids"] = {"pf": rng.choice([0, 0, 1, 3]), "pb": rng.choice([0, 0, 1, 2]), "ids": ids}
+    return c
 
 
 def commands_for(c, structural=True):
@@ -526,6 +581,10 @@ def sub_case(c, idx):
             d["Mhex"] = [[c["Mhex"][i][j] for j in idx] for i in idx]
     else:
         d["X"] = [c["X"][i] for i in idx]
+        if c.get("Ghex"):
+            d["Ghex"] = [[c["Ghex"][i][j] for j in idx] for i in idx]
+    if c.get("ids"):
+        d["ids"] = dict(c["ids"], ids=[c["ids"]["ids"][i] for i in idx])
     return d
 
 
@@ -583,6 +642,10 @@ def report_violation(ctx, exe, mexe, c, method, k, why):
     if small.get("Mhex"):
         rep["Mhex"] = small["Mhex"]
         rep["order_only"] = True
+    if small.get("Ghex"):
+        rep["Ghex"], rep["kscale"] = small["Ghex"], small["kscale"]
+    if small.get("ids"):
+        rep["ids"] = small["ids"]
     ctx.violation(rep, why2, signature=dyn_signature(small, method, why2))
 
 
@@ -594,6 +657,7 @@ def evaluate(ctx, exe, mexe, cases, stats, structural=True):
     for c, cm, r in zip(cases, cmdlists, impl):
         n = c["N"]
         T, exact = model_table(c)
+        ds = dscale(c)
         if r.get("skipped"):
             stats["skipped_cases"] = stats.get("skipped_cases", 0) + 1
             continue
@@ -613,7 +677,7 @@ def evaluate(ctx, exe, mexe, cases, stats, structural=True):
                 if hit:
                     break
             if not hit:
-                ctx.mismatch({"gen": c["gen"], "N": n, "kind": c["kind"], "M": c.get("M"), "X": c.get("X"),
+                ctx.mismatch({"gen": c["gen"], "N": n, "kind": c["kind"], "M": c.get("M"), "X": c.get("X"), "ids": c.get("ids"), "kscale": c.get("kscale"),
                               "ks": c["ks"]},
                              "a structural probe (tree dump / candidate dump / oracle probe) aborts although "
                              "find_neighbors does not: " + str(r["sanitizer"])[:300])
@@ -651,7 +715,7 @@ def evaluate(ctx, exe, mexe, cases, stats, structural=True):
                     plan.append(("N", k, row))
             tq = p["T"].get(k + 1)
             if tq is not None and exact:
-                nodes = tq["nodes"]
+                nodes = [(it, th / ds, a, b) for it, th, a, b in tq["nodes"]]
                 if all(th == int(th) and abs(th) < 2 ** 62 for _, th, _, _ in nodes):
                     text.append("TREE %d %d\n" % (k, len(nodes)) +
                                 "".join("n %d %d %d %d\n" % (it, int(th), a, b) for it, th, a, b in nodes))
@@ -669,16 +733,16 @@ def evaluate(ctx, exe, mexe, cases, stats, structural=True):
             try:
                 for l in p["CT"]:
                     w = l.split()
-                    md, pd = float.fromhex(w[2]), float.fromhex(w[3])
+                    md, pd = float.fromhex(w[2]) / ds, float.fromhex(w[3]) / ds
                     if w[0] != "t" or md != int(md) or pd != int(pd) or int(w[5]) != int(w[6]) or int(w[4]) < 0:
                         raise ValueError(l)
                     ctl.append("t %d %d %d %d %d\n" % (int(w[1]), int(md), int(pd), int(w[4]), int(w[5])))
             except (ValueError, IndexError, OverflowError) as ex:
                 ctl = None
-                ctx.mismatch({"gen": c["gen"], "N": n, "kind": c["kind"], "M": c.get("M"), "X": c.get("X")},
+                ctx.mismatch({"gen": c["gen"], "N": n, "kind": c["kind"], "M": c.get("M"), "X": c.get("X"), "ids": c.get("ids"), "kscale": c.get("kscale")},
                              "cover-tree dump has a node whose max_dist / parent_dist is not an integer distance, "
                              "a negative scale or num_children != children.size(): %s" % str(ex)[:120])
-            if ctl is not None and n <= 200:
+            if ctl is not None and n <= 200 and ds == 1.0:
                 text.append("BUILD\n")
                 plan.append(("BT", ctl))
             if ctl is not None:
@@ -729,7 +793,7 @@ def evaluate(ctx, exe, mexe, cases, stats, structural=True):
                     ctx.mismatch({"gen": c["gen"], "N": n, "k": k, "row": row},
                                  "observed std::nth_element result violates the oracle contract nth_ok")
                 elif ("B", k) in implF and implF[("B", k)].get(row) != parts[2].split():
-                    ctx.mismatch({"gen": c["gen"], "N": n, "k": k, "row": row, "M": c.get("M"), "X": c.get("X")},
+                    ctx.mismatch({"gen": c["gen"], "N": n, "k": k, "row": row, "M": c.get("M"), "X": c.get("X"), "ids": c.get("ids"), "kscale": c.get("kscale")},
                                  "brute force row %d k=%d: model distances %s, implementation %s"
                                  % (row, k, parts[2], implF[("B", k)].get(row)))
             elif item[0] == "T":
@@ -737,7 +801,7 @@ def evaluate(ctx, exe, mexe, cases, stats, structural=True):
                 g = take("T ", 1)[0].split()
                 srows = take("S ", n)
                 stats["vp_trees"] = stats.get("vp_trees", 0) + 1
-                where = {"gen": c["gen"], "N": n, "k": k, "kind": c["kind"], "M": c.get("M"), "X": c.get("X"),
+                where = {"gen": c["gen"], "N": n, "k": k, "kind": c["kind"], "M": c.get("M"), "X": c.get("X"), "ids": c.get("ids"), "kscale": c.get("kscale"),
                          "tseed": c["tseed"] + k}
                 if g[1] != "1" or g[2] != "1":
                     ctx.mismatch(where, "the real VP-tree violates the invariant the search is proved under "
@@ -775,7 +839,7 @@ def evaluate(ctx, exe, mexe, cases, stats, structural=True):
                     stats["ct_queries"] = stats.get("ct_queries", 0) + 1
                     if w[2] != "1":
                         stats["ct_not_exact"] = stats.get("ct_not_exact", 0) + 1
-                    where = {"gen": c["gen"], "N": n, "k": k, "kind": c["kind"], "M": c.get("M"), "X": c.get("X")}
+                    where = {"gen": c["gen"], "N": n, "k": k, "kind": c["kind"], "M": c.get("M"), "X": c.get("X"), "ids": c.get("ids"), "kscale": c.get("kscale")}
                     if w[1] != "1":
                         ctx.mismatch(where, "cover-tree batch query (k+1=%d) for query %d returned the candidate list "
                                             "%s which is not complete (cand_complete_b false)" % (k + 1, q, cs))
@@ -806,7 +870,7 @@ def evaluate(ctx, exe, mexe, cases, stats, structural=True):
                 _, kk, cq = item
                 g = take("CT ", 1)[0].split()
                 stats["ct_trees"] = stats.get("ct_trees", 0) + 1
-                where = {"gen": c["gen"], "N": n, "k": kk, "kind": c["kind"], "M": c.get("M"), "X": c.get("X")}
+                where = {"gen": c["gen"], "N": n, "k": kk, "kind": c["kind"], "M": c.get("M"), "X": c.get("X"), "ids": c.get("ids"), "kscale": c.get("kscale")}
                 if g[1] != "1":
                     ctx.mismatch(where, "the real cover tree violates the invariant ct_inv_b the batch query is "
                                         "proved under (%s)" % " ".join(g[2:]))
@@ -898,7 +962,7 @@ def float_observation(ctx, exe, rng, stats, runs):
         n = rng.randint(8, 24)
         xs = [rng.choice([-1, 1]) * math.exp(rng.uniform(math.log(1e-12), math.log(1e11))) for _ in range(n)]
         F = [[abs(a - b) for b in xs] for a in xs]
-        k = rng.randint(1, min(6, n - 1))
+        k = rng.choice([rng.randint(1, min(6, n - 1)), rng.randint(1, min(6, n - 1)), n - 2, n - 1])
         vals = sorted({v for row in F for v in row})
         rank = {v: i for i, v in enumerate(vals)}
         c = {"gen": "float-line-23-decades", "kind": "D", "N": n, "order_only": True, "structural": False,
@@ -937,6 +1001,37 @@ def float_observation(ctx, exe, rng, stats, runs):
                                   % (MNAME[m], " that is an exact metric" if metric else ""))
 
 
+def boundary_large(ctx, exe, c, stats):
+    """k = N-2 and k = N-1 on the large cases (N > 400), where the extracted is_knn_b (quadratic in k per row) is too
+    slow: a row is judged here by comparing its sorted distances with the k smallest distances to the others, plus
+    distinctness / range / query-not-in-row.  Supplementary to the extracted judge, used only for these two k."""
+    n = c["N"]
+    T, _ = model_table(c)
+    rows_judged = 0
+    for k in (n - 2, n - 1):
+        r = run_impl(ctx, exe, [c], [["F %s %d" % (m, k) for m in METHODS]], timeout=600)[0]
+        if r["crashed"] or not r["ended"]:
+            ctx.violation({"gen": c["gen"], "kind": c["kind"], "N": n, "k": k, "M": c.get("M"), "ids": c.get("ids")},
+                          "find_neighbors aborts at k=%d on N=%d: %s" % (k, n, str(r["sanitizer"])[:300]))
+            continue
+        p = parse_case_output(r["lines"])
+        for m in METHODS:
+            rows = dict(p["F"].get((m, k)) or [])
+            for q in range(n):
+                row = rows.get(q)
+                want = sorted(T[q][j] for j in range(n) if j != q)[:k]
+                rows_judged += 1
+                if row is None or q in row or len(set(row)) != len(row) or any(not (0 <= j < n) for j in row) \
+                        or sorted(T[q][j] for j in row) != want:
+                    ctx.violation({"gen": c["gen"], "kind": c["kind"], "N": n, "method": m, "k": k, "M": c.get("M"),
+                                   "ids": c.get("ids")},
+                                  "%s, k=%d (N=%d), query %d: the returned row is not a set of k nearest other samples"
+                                  % (MNAME[m], k, n, q))
+                    break
+    stats["rows_boundary_large"] = stats.get("rows_boundary_large", 0) + rows_judged
+    return rows_judged
+
+
 def corpus_case(cj):
     c = {"gen": "corpus:" + cj.get("gen", "?"), "kind": cj["kind"], "N": cj["N"], "tseed": cj.get("tseed", 7),
          "structural": True}
@@ -946,6 +1041,10 @@ def corpus_case(cj):
             c["Mhex"], c["order_only"], c["structural"] = cj["Mhex"], True, False
     else:
         c["X"] = cj["X"]
+        if cj.get("Ghex"):
+            c["Ghex"], c["kscale"] = cj["Ghex"], cj.get("kscale", 0)
+    if cj.get("ids"):
+        c["ids"] = cj["ids"]
     n = c["N"]
     ks = cj.get("ks") or ([cj["k"]] if "k" in cj else [])
     c["ks"] = sorted({k for k in ks if 1 <= k <= n - 1})
@@ -1022,15 +1121,21 @@ def run(ctx):
             pts = [[i, j] for i in range(side) for j in range(n // side)]
             rng.shuffle(pts)
             c = make_case(rng, "grid", "D", len(pts), None, l1(pts), "grid2d-large")
-            c["ks"] = [1, 5, 20]
+            c["ks"] = [1, 5, 20] + ([n - 2, n - 1] if n <= 400 else [])
             c["structural"] = n <= 400
             cases.append(c)
             pts = [[rng.randint(0, n // 3)] for _ in range(n)]
             c = make_case(rng, "line", "D", n, None, l1(pts), "line-large")
-            c["ks"] = [3, 12]
+            c["ks"] = [3, 12] + ([n - 2, n - 1] if n <= 400 else [])
             c["structural"] = n <= 400
             cases.append(c)
     cases = [c for c in cases if c["ks"] and c["N"] >= 2]
+    # non-identity index ranges: about a third of the cases of every generator run over a window of a longer vector
+    # holding offset / permuted ids (the corpus keeps the identity range its replays were recorded with)
+    for c in cases:
+        if not c["gen"].startswith("corpus") and rng.random() < 0.34:
+            add_ids(rng, c)
+            stats["cases_with_id_range"] = stats.get("cases_with_id_range", 0) + 1
     for c in cases:
         hist[c["gen"]] = hist.get(c["gen"], 0) + 1
         if c["gen"] != "scatter":
@@ -1052,6 +1157,8 @@ def run(ctx):
         if stats.get("aborted_cases", 0) >= 3 and ctx.has_violation():
             break
         n += evaluate(ctx, exe, mexe, [c], stats)
+        if c["N"] > 400:
+            n += boundary_large(ctx, exe, c, stats)
     float_observation(ctx, exe, rng, stats, 30 if quick else 400)
     for i in range(0, len(scatter), 2000):
         if ctx.has_violation():
@@ -1105,6 +1212,10 @@ def replay(ctx, case):
             c["Mhex"], c["order_only"] = case["Mhex"], True
     else:
         c["X"] = case["X"]
+        if case.get("Ghex"):
+            c["Ghex"], c["kscale"] = case["Ghex"], case.get("kscale", 0)
+    if case.get("ids"):
+        c["ids"] = case["ids"]
     ks = [case["k"]] if "k" in case else case.get("ks", [])
     methods = [case["method"]] if "method" in case else METHODS
     rc = 0
